@@ -183,7 +183,8 @@ func runC20(c *Ctx) {
 		for i, p := range paths {
 			sorted, raise := 0, 0
 			for _, e := range p.Effects {
-				if e.Kind == "call" && e.Call.Op == "call" && e.Call.Sym == "sort.Float64s" {
+				// the WHOLE slice is sorted: sorting a suffix leaves later appended small values out of place
+				if e.Kind == "call" && e.Call.Op == "call" && e.Call.Sym == "sort.Float64s" && len(e.Call.Args) == 1 && isRecvField(e.Call.Args[0].unver(), valuesF) {
 					sorted = e.Seq
 				}
 				if e.Kind == "store" && isRecvField(e.Addr, flagF) && e.Val.isConst("true") {
